@@ -19,7 +19,7 @@ class Check(HCheck):
     must_count = ("webentity_with_pages", "nested_exclusion", "multi_prefix_orders", "crawled_subset_nonempty", "page_at_prefix_node")
 
     def spaces(self, tier):
-        return R.rich_spaces(tier)
+        return R.rich_spaces(tier) + [R.latin1_space(tier)]
 
     def check_state(self, w, ctx):
         t = w.t
@@ -43,8 +43,9 @@ class Check(HCheck):
                 ctx.count("multi_prefix_orders")
             for order in orders:
                 try:
-                    got = [(d["lru"], d["crawled"]) for d in t.get_webentity_pages(wid, list(order))]
-                    gotc = [(d["lru"], d["crawled"]) for d in t.get_webentity_crawled_pages(wid, list(order))]
+                    qorder = [w.q(p) for p in order]
+                    got = [(d["lru"], d["crawled"]) for d in t.get_webentity_pages(wid, qorder)]
+                    gotc = [(d["lru"], d["crawled"]) for d in t.get_webentity_crawled_pages(wid, qorder)]
                 except Exception as e:
                     ctx.fail("query-failed", "pages of webentity %r with prefixes %s failed: %s: %s" % (wid, _pl(order), type(e).__name__, e))
                     return
